@@ -169,7 +169,7 @@ def worker(item):
 
 def run(ctx):
     # (rows max, inputs max below the top row count, inputs max at the top row count)
-    pos, neg = ((5, 4, 2), (3, 4, 4)) if ctx.quick else ((6, 4, 4), (5, 4, 2))
+    pos, neg = ((5, 4, 2), (3, 4, 4)) if ctx.quick else ((6, 4, 3), (5, 4, 2))
     items = [("eight", None, None, desc) for desc in (True, False)]
     for kind, (top, kmax, ktop) in (("pos", pos), ("neg", neg)):
         for n in range(1, top + 1):
